@@ -299,6 +299,28 @@ SetsRec(S) ==
   LET fa(p) == Controlling(p[1], p[2]) IN [pairs |-> S, order |-> SortedBy(S, fa)]
 
 ---------------------------------------------------------------------------
+(* ICE server URIs (RFC 7064 stun/stuns, RFC 7065 turn/turns).  Beyond the  *)
+(* statement of C16 (compared under EXT only).                              *)
+UriDomain ==
+  {[scheme |-> sc, host |-> h, port |-> p, query |-> q] :
+     sc \in {"stun", "stuns", "turn", "turns", "http"},
+     h \in {"name", "ip4", "ip6"},
+     p \in {"none", "3478", "1", "65535", "0", "65536", "abc"},
+     q \in {"none", "udp", "tcp", "sctp"}}
+UriValid(u) ==
+  /\ u.scheme \in {"stun", "stuns", "turn", "turns"}
+  /\ u.port \notin {"65536", "abc"}
+  /\ (u.scheme \in {"stun", "stuns"} => u.query = "none")     \* RFC 7064: no query part
+  /\ u.query # "sctp"
+UriExpect(u) ==
+  [ valid |-> UriValid(u),
+    kind |-> IF u.scheme \in {"stun", "stuns"} THEN "stun" ELSE "turn",
+    port |-> IF u.port = "none" THEN (IF u.scheme \in {"stuns", "turns"} THEN "5349" ELSE "3478") ELSE u.port,
+    transport |-> IF u.query \in {"udp", "tcp"} THEN u.query
+                  ELSE IF u.scheme \in {"stuns", "turns"} THEN "tcp" ELSE "udp" ]
+UriRec(u) == [uri |-> u, expect |-> UriExpect(u)]
+
+---------------------------------------------------------------------------
 Domain ==
   CASE Part = "msg"  -> MsgDomain
     [] Part = "dec"  -> DecDomain
@@ -306,6 +328,7 @@ Domain ==
     [] Part = "cand" -> Cands
     [] Part = "prio" -> PrioDomain
     [] Part = "sets" -> SetsDomain
+    [] Part = "uri"  -> UriDomain
 
 VARIABLE item
 Init == item \in Domain
@@ -319,6 +342,7 @@ ItemOK ==
     [] Part = "cand" -> CandOK(item)
     [] Part = "prio" -> PrioOK(item)
     [] Part = "sets" -> SetsOK(item)
+    [] Part = "uri"  -> (UriValid(item) => UriExpect(item).port \in {"3478", "5349", "1", "65535", "0"})
 
 \* padding algebra over the whole RFC range (independent of the enumerated domain)
 ASSUME \A n \in 0..763 : Pad4(n) \in 0..3 /\ (n + Pad4(n)) % 4 = 0 /\ (n % 4 = 0 => Pad4(n) = 0)
